@@ -43,6 +43,26 @@ def main():
             extra = []
         cases.append({"input": common.jsonable(inp), "obs": common.jsonable(obs), "oracle": orc,
                       "coq": term, "coq_extra": extra, "nontrivial": nt, "key": key})
+    # automatic summary of what was generated and what came back (kinds of cases, options, result kinds, sizes)
+    for cs in cases:
+        inp = cs["input"] if isinstance(cs["input"], dict) else {}
+        for k in ("f", "kind", "fn", "src", "alt", "m", "method", "comb", "stat", "plus1", "keep", "dtype", "in_place", "op", "tf", "order"):
+            if k in inp and isinstance(inp[k], (str, bool, int, list)):
+                v = inp[k]
+                dist.add("case." + k, v[0] if isinstance(v, list) and v else v)
+        for k in ("x", "p", "g", "distr", "ops", "m"):
+            if k in inp and isinstance(inp[k], list):
+                dist.add("size." + k, len(inp[k]))
+        for k in ("n", "N", "reps"):
+            if k in inp and isinstance(inp[k], int):
+                dist.add("value." + k, inp[k] if inp[k] < 20 else "20+")
+        ob = cs["obs"] if isinstance(cs["obs"], dict) else {}
+        r = ob.get("r")
+        if r is None and isinstance(ob.get("a"), dict):
+            r = ob["a"].get("r")
+        if isinstance(r, list) and r:
+            dist.add("result", r[0] if r[0] != "exc" else "exc:" + str(r[1] if len(r) > 1 else ""))
+        dist.add("oracle", "ok" if cs["oracle"] is None else cs["oracle"].get("cls", "violation"))
     res = {"cases": cases, "coq_header": mod.COQ_HEADER, "rule": mod.RULE,
            "distribution": dist.out(), "assumptions": getattr(mod, "ASSUMPTIONS", []),
            "trusted_base": getattr(mod, "TRUSTED", []),
